@@ -784,11 +784,12 @@ Lemma pass2_plain : forall k, (k = 0 \/ k = 1) -> forall n H tl,
   (length H <= n)%nat -> Forall fld H -> (tl = [] \/ tl = [[]]) ->
   exists D N tl', allDD D /\ allnm N /\ (tl' = [] \/ tl' = [[]]) /\
     dd_res (length (root_acc k)) (TX k (H ++ tl)) (length (TX k (H ++ tl))) 0 (TX k (D ++ N ++ tl')) /\
-    (forall R, normal_elems R (H ++ tl) = normal_elems R (D ++ N ++ tl')).
+    (forall R, normal_elems R (H ++ tl) = normal_elems R (D ++ N ++ tl')) /\
+    (forall P : elem -> Prop, Forall P H -> Forall P (D ++ N)).
 Proof.
   intros k Hk. induction n as [|n IH]; intros H tl Hlen HF Htl.
   - destruct H; [|cbn in Hlen; lia]. exists [], [], tl.
-    split; [constructor|]. split; [constructor|]. split; [exact Htl|]. split; [|reflexivity].
+    split; [constructor|]. split; [constructor|]. split; [exact Htl|]. split; [|split; [reflexivity|intros; constructor]].
     apply (scan_nocancel k [] [] tl Hk); [constructor|constructor|exact Htl].
   - destruct (split_plain H HF) as [(D & N & -> & HD & HN) | (D & N' & n0 & C & -> & HD & HN & HC)].
     + exists D, N, tl. repeat split; auto.
@@ -804,18 +805,23 @@ Proof.
       assert (EF : ((D ++ N' ++ [n0]) ++ DD :: C) ++ tl = (D ++ N' ++ [n0]) ++ DD :: Y).
       { unfold Y. rewrite <- !app_assoc. reflexivity. }
       assert (Hshort : exists H' tl'', (D ++ N') ++ match Y with [] => [[]] | _ => Y end = H' ++ tl'' /\
-                        Forall fld H' /\ (tl'' = [] \/ tl'' = [[]]) /\ (length H' <= n)%nat).
+                        Forall fld H' /\ (tl'' = [] \/ tl'' = [[]]) /\ (length H' <= n)%nat /\
+                        (forall P : elem -> Prop, Forall P ((D ++ N' ++ [n0]) ++ DD :: C) -> Forall P H')).
       { repeat (rewrite ?app_length in Hlen; cbn [length] in Hlen).
+        assert (Sub : forall P : elem -> Prop, Forall P ((D ++ N' ++ [n0]) ++ DD :: C) -> Forall P (D ++ N') /\ Forall P C).
+        { intros P HP. rewrite !Forall_app in HP. destruct HP as [[P1 [P2 _]] P3]. rewrite Forall_app.
+          inversion P3; subst. repeat split; assumption. }
         destruct C as [|c C'].
         - destruct Htl as [-> | ->]; unfold Y; cbn [app].
-          + exists (D ++ N'), [[]]. repeat split; auto. rewrite app_length. lia.
-          + exists (D ++ N'), [[]]. repeat split; auto. rewrite app_length. lia.
+          + exists (D ++ N'), [[]]. repeat split; auto; [rewrite app_length; lia|intros P HP; apply (Sub P HP)].
+          + exists (D ++ N'), [[]]. repeat split; auto; [rewrite app_length; lia|intros P HP; apply (Sub P HP)].
         - exists ((D ++ N') ++ c :: C'), tl. unfold Y. cbn [app]. repeat split; auto.
           + rewrite <- !app_assoc. reflexivity.
           + apply Forall_app. split; assumption.
-          + cbn [length] in Hlen. rewrite !app_length. cbn [length]. lia. }
-      destruct Hshort as (H' & tl'' & EH & HF' & Htl'' & Hlen').
-      destruct (IH H' tl'' Hlen' HF' Htl'') as (D2 & N2 & tl2 & HD2 & HN2 & Htl2 & Hres & Hm).
+          + cbn [length] in Hlen. rewrite !app_length. cbn [length]. lia.
+          + intros P HP. destruct (Sub P HP). apply Forall_app. split; assumption. }
+      destruct Hshort as (H' & tl'' & EH & HF' & Htl'' & Hlen' & Hsub).
+      destruct (IH H' tl'' Hlen' HF' Htl'') as (D2 & N2 & tl2 & HD2 & HN2 & Htl2 & Hres & Hm & HP2).
       exists D2, N2, tl2. repeat split; auto.
       * rewrite EF. apply scan_cancel; auto. rewrite EH.
         destruct Hk as [-> | ->]; [exact Hres|].
